@@ -153,6 +153,7 @@ def gen(repo) -> str:
             if ok:
                 for e in elts:
                     wrapped.append(e.id if isinstance(e, ast.Name) else e.attr if isinstance(e, ast.Attribute) else "?")
+    # any mention of `visit_operand` in the method counts as "uses it" (see the docstring of the generated fact)
     operand_users = []
     for kind in ("BinOp", "BoolOp", "Compare", "UnaryOp", "Attribute", "Subscript", "Call", "IfExp", "Starred"):
         fn = find_func(sg.body, "visit_" + kind, rel)
@@ -184,7 +185,11 @@ def gen(repo) -> str:
     out.append("def selfParenthesisingVisitors : List (List Char) := [%s]\n\n" % ", ".join(lstr(k) for k in self_paren))
     out.append("/-- node kinds `visit_operand` writes inside parentheses -/\n")
     out.append("def operandWrappedKinds : List (List Char) := [%s]\n\n" % ", ".join(lstr(k) for k in wrapped))
-    out.append("/-- visitors that write their sub-expressions through `visit_operand` -/\n")
+    out.append("/-- visitors (among BinOp, BoolOp, Compare, UnaryOp, Attribute, Subscript, Call, IfExp, Starred) whose method body "
+               "MENTIONS `visit_operand` at all.  This pins: a visitor that stops going through `visit_operand` altogether "
+               "drops out of the list.  It does NOT pin that every operand slot of the visitor is written through it (one "
+               "`self.visit(...)` beside a `self.visit_operand(...)` is not seen) nor in which order; that is covered by "
+               "the correspondence / oracle on filter-call arguments and by C19's printer model. -/\n")
     out.append("def operandUsers : List (List Char) := [%s]\n\n" % ", ".join(lstr(k) for k in operand_users))
     out.append("end MakoModel.Generated.Pipeline\n")
     return "".join(out)
